@@ -956,5 +956,5 @@ ASSUMPTIONS = [
 ]
 RULE = ("queries: group graph patterns of nesting <= 4 over 1-4 variables shared at random between BGPs, OPTIONAL, UNION, MINUS, FILTER "
         "(comparisons, && || !, BOUND, (NOT) EXISTS), BIND, VALUES (with UNDEF and duplicate rows), sub-SELECT (DISTINCT or not), GRAPH "
-        "(IRI or variable), SELECT (star or projection) / ASK / CONSTRUCT; data: 1-5 triples over 2-3 subjects, 1-2 predicates, 2-3 objects, "
+        "(IRI or variable; 14 % of the dataset cases: (NOT) EXISTS as FILTER / OPTIONAL condition / BIND inside GRAPH ?g over two named graphs that share the outer matches and differ in what the EXISTS pattern matches), SELECT (star or projection) / ASK / CONSTRUCT; data: 1-5 triples over 2-3 subjects, 1-2 predicates, 2-3 objects, "
         "datasets with two named graphs whose names are also data terms; distinct by full case content; non-trivial = evaluated without error")
